@@ -1271,3 +1271,122 @@ Qed.
 
 Lemma no_panic_lemma : forall (h : list step) (st : step), fst (exec (run init h) st) <> Abort.
 Proof. intros h st. apply exec_no_abort. apply reachable_Inv. Qed.
+
+(** ** Closed form of the window while latest-history is not edited *)
+
+Definition step_keeps_lh (s : state) (st : step) (name : Z) : bool :=
+  match snd st with OEdit a => negb (edit_applies s a name) | _ => true end.
+Fixpoint no_lh_editb (s : state) (h : list step) (name : Z) : bool :=
+  match h with
+  | [] => true
+  | st :: h' => step_keeps_lh s st name && no_lh_editb (exec_state s st) h' name
+  end.
+
+Lemma feed_unchanged_exec s st name f : Inv s -> get name (feeds s) = Some f ->
+  step_keeps_lh s st name = true -> get name (feeds (exec_state s st)) = Some f.
+Proof.
+  intros HI Hf Hk. unfold exec_state. destruct st as [now o]. unfold step_keeps_lh in Hk. cbn [snd] in Hk.
+  destruct o; cbn [exec].
+  - unfold do_create. destruct (negb (create_basic a)); [exact Hf|].
+    destruct (has (c_name a) (feeds s)) eqn:Hh; [exact Hf|].
+    destruct (negb (create_ctx_ok a)); [exact Hf|]. cbn [snd].
+    unfold enqueue, set_feed. replace (PAUSED =? RUNNING) with false by reflexivity. cbn [feeds].
+    rewrite get_set_other; [exact Hf|]. intros E. subst name. unfold has in Hh. rewrite Hf in Hh. discriminate.
+  - rewrite <- Hf. f_equal. unfold do_start. destruct_matches; reflexivity.
+  - rewrite <- Hf. f_equal. unfold do_pause. destruct_matches; reflexivity.
+  - destruct (do_edit_cases s a) as [[_ E]|(g & x & x' & Hb & Hg & Hs & Hx & Hu & Hok & _ & FE & _)].
+    + rewrite E. exact Hf.
+    + rewrite FE. unfold edit_applies in Hk. rewrite Hok in Hk. cbn [is_ok] in Hk. rewrite andb_true_r in Hk.
+      unfold edit_result. cbv zeta. destruct (0 <? e_lh a) eqn:Hpos; unfold set_feed; cbn [feeds].
+      * rewrite andb_true_r in Hk. rewrite get_set_other by lia. exact Hf.
+      * destruct (Z.eq_dec name (e_name a)) as [->|Hne].
+        -- rewrite get_set_same. congruence.
+        -- rewrite get_set_other by exact Hne. exact Hf.
+  - exact Hf.
+  - change (get name (feeds (snd (exec s (now, OSvc evs)))) = Some f).
+    rewrite exec_svc by exact HI. cbn [snd]. rewrite do_sevs_feeds by exact HI. exact Hf.
+Qed.
+
+Lemma ledger_sevs_closed now name f evs : forall s all k,
+  Inv s -> get name (feeds s) = Some f -> 0 <= k <= f_lh f ->
+  exists new, ledger_sevs s now name evs (all, k) = (new ++ all, Z.min (f_lh f) (k + Z.of_nat (length new))).
+Proof.
+  induction evs as [|e evs IH]; intros s all k HI Hf Hk; simpl.
+  - exists []. simpl. f_equal. lia.
+  - destruct (Inv_do_sev s now e HI) as [_ HI1].
+    assert (Hf1 : get name (feeds (snd (do_sev s now e))) = Some f) by (rewrite do_sev_feeds by exact HI; exact Hf).
+    assert (Hstep : ledger_sev s now name e (all, k) = (all, k)
+                    \/ exists v, ledger_sev s now name e (all, k) = (v :: all, Z.min (f_lh f) (k + 1))).
+    { destruct e as [c|c bc bthr outs tol|c]; try (left; reflexivity). unfold ledger_sev.
+      destruct (get c (ctxs s)) as [x|] eqn:Hx; [|left; reflexivity].
+      destruct (feed_by_ctx s c) as [[n g]|] eqn:Hfb; [|left; reflexivity].
+      destruct ((n =? name) && (x_bthr x <=? Z.of_nat (length outs))) eqn:E; [|left; reflexivity].
+      right. apply andb_prop in E. destruct E as [En _]. assert (n = name) by lia. subst n.
+      destruct (feed_by_ctx_spec s c name g HI Hfb) as [Hg _]. assert (g = f) by congruence. subst g.
+      eexists. reflexivity. }
+    destruct Hstep as [E|[v E]]; rewrite E.
+    + apply IH; assumption.
+    + destruct (IH (snd (do_sev s now e)) (v :: all) (Z.min (f_lh f) (k + 1)) HI1 Hf1 ltac:(lia)) as [new Hn].
+      exists (new ++ [v]). rewrite Hn, <- app_assoc, app_length. simpl. f_equal. lia.
+Qed.
+
+Lemma ledger_run_closed h : forall s name f all k,
+  Inv s -> get name (feeds s) = Some f -> no_lh_editb s h name = true -> 0 <= k <= f_lh f ->
+  get name (feeds (run s h)) = Some f
+  /\ exists new, ledger_run s h name (all, k) = (new ++ all, Z.min (f_lh f) (k + Z.of_nat (length new))).
+Proof.
+  induction h as [|st h IH]; intros s name f all k HI Hf Hno Hk; simpl.
+  - split; [exact Hf|]. exists []. simpl. f_equal. lia.
+  - simpl in Hno. apply andb_prop in Hno. destruct Hno as [Hn1 Hn2].
+    pose proof (feed_unchanged_exec s st name f HI Hf Hn1) as Hf1.
+    pose proof (Inv_exec s st HI) as HI1.
+    assert (Hstep : exists new1, ledger_step s st name (all, k)
+                     = (new1 ++ all, Z.min (f_lh f) (k + Z.of_nat (length new1)))).
+    { unfold ledger_step. unfold step_keeps_lh in Hn1. destruct st as [now o]. cbn [snd fst] in *.
+      destruct o; try (exists []; simpl; f_equal; lia).
+      - destruct (edit_applies s a name); [discriminate|]. exists []. simpl. f_equal. lia.
+      - apply ledger_sevs_closed; assumption. }
+    destruct Hstep as [new1 E1]. rewrite E1.
+    destruct (IH (exec_state s st) name f (new1 ++ all) (Z.min (f_lh f) (k + Z.of_nat (length new1)))
+                 HI1 Hf1 Hn2 ltac:(lia)) as [Hf2 [new2 E2]].
+    split; [exact Hf2|]. exists (new2 ++ new1). rewrite E2, <- app_assoc, app_length. f_equal. lia.
+Qed.
+
+Lemma ledger_run_app h1 : forall h2 s name L,
+  ledger_run s (h1 ++ h2) name L = ledger_run (run s h1) h2 name (ledger_run s h1 name L).
+Proof. induction h1 as [|st h1 IH]; intros; simpl; [reflexivity|apply IH]. Qed.
+
+Lemma run_app h1 : forall h2 s, run s (h1 ++ h2) = run (run s h1) h2.
+Proof. induction h1 as [|st h1 IH]; intros; simpl; [reflexivity|apply IH]. Qed.
+
+Lemma run_wfb_app h1 : forall h2 s, run_wfb s (h1 ++ h2) = true -> run_wfb s h1 = true /\ run_wfb (run s h1) h2 = true.
+Proof.
+  induction h1 as [|st h1 IH]; intros h2 s H; simpl in *; [split; [reflexivity|exact H]|].
+  apply andb_prop in H. destruct H as [H1 H2]. destruct (IH _ _ H2) as [A B]. rewrite H1, A. split; [reflexivity|exact B].
+Qed.
+
+(** while latest-history stays [lh]: the feed shows the newest min(lh, kept-before + produced-since)
+    values; in particular, from the creation on, the newest min(lh, produced) *)
+Lemma newest_min_lh_produced_lemma :
+  forall (h1 h2 : list step) (name : Z) (f : feed),
+    run_wfb init (h1 ++ h2) = true ->
+    get name (feeds (run init h1)) = Some f ->
+    no_lh_editb (run init h1) h2 name = true ->
+    let L1 := ledger_run init h1 name ([], 0) in
+    exists new,
+      fst (ledger_run init (h1 ++ h2) name ([], 0)) = new ++ fst L1
+      /\ query_values (run init (h1 ++ h2)) name
+         = firstn (Z.to_nat (Z.min (f_lh f) (snd L1 + Z.of_nat (length new)))) (new ++ fst L1)
+      /\ get name (feeds (run init (h1 ++ h2))) = Some f.
+Proof.
+  intros h1 h2 name f Hwf Hf Hno L1.
+  destruct (run_wfb_app h1 h2 init Hwf) as [Hwf1 _].
+  destruct (keeps_newest_latest_history_lemma h1 name Hwf1) as (_ & Hb1 & Hlh1). fold L1 in Hb1, Hlh1.
+  specialize (Hlh1 f Hf).
+  destruct (keeps_newest_latest_history_lemma (h1 ++ h2) name Hwf) as (Hq & _).
+  rewrite ledger_run_app in Hq. fold L1 in Hq. rewrite ledger_run_app. fold L1.
+  destruct (ledger_run_closed h2 (run init h1) name f (fst L1) (snd L1) (reachable_Inv h1) Hf Hno ltac:(lia))
+    as [Hf2 [new E]].
+  rewrite <- surjective_pairing in E. rewrite E in Hq. rewrite E. cbn [fst snd] in *.
+  exists new. split; [reflexivity|]. split; [exact Hq|]. rewrite run_app. exact Hf2.
+Qed.
